@@ -66,6 +66,10 @@ CHECKS = {
    technique="TLA+ spec of the massive-mode pipeline (Pipeline.tla: every hand-over point an action, coarse select semantics, named as-built deviations) model-checked by TLC for NoStuck / CancelMeansCtxErr / FaultMeansErr over all interleavings; real calls under perturbed schedules checked for return, leaked goroutines and ctx error; recorded hook traces validated against the spec by TLC (TracePipeline.tla, Layer M + Layer P); TLC's as-built counter-example schedules forced on the real goroutines with a gate; Go race detector as monitor for shared memory",
    text="TLC exhausts every interleaving of splitter, 2 workers per stage, closers, the error handlers, main and a cancelling environment for 2 (thorough 3) blocks, every fate vector, reader failure at every block boundary, all six sinks and both entry points: no state without a successor unless every goroutine has finished (returns, no leak), cancelled => ctx error, fault => error. The real pipeline is then run for every sink with every fate vector up to 3-4 blocks, 5/8/12-block documents failing in most blocks, reader failures, cancellation before the call and at input offsets, From-Root feeders under a cancelled context, with GOMAXPROCS 1..16, seeded delays at the hook points and yielding reader/writer/callbacks: it must return within the deadline, leave no goroutine with a gtree frame after settling, and return the context's error when cancelled before the input was read. A sample of the recorded hook traces (global sequence number inside the hook) is replayed by TLC against Pipeline.tla's actions with LeakFree / ResultAgrees evaluated at every step; the two schedules TLC returns for the as-built model are forced with a plan gate (220 runs); the same calls are repeated in a worker built with -race.",
    note="'no goroutine remains once it has returned' is checked after a settling period of 150 ms (workers may still be winding down when a failed or cancelled call returns). The spec decides race freedom only through the real race detector's observations; coarse select semantics over-approximate a parked goroutine by one that has not entered its select yet."),
+ 'C10': dict(level=MC, ref='DESIGN.md 7/C10, 3.7',
+   technique="TLA+ specs Pipeline.tla (BlockIntegrity, NoDupNoGhost, FaultMeansErr, NilMeansComplete over all interleavings) and ParserShared.tla (transcribed splitter + shared parser: SplitAgreement, ParseAgreement for every interleaving of 2 workers) model-checked by TLC; TLC-generated documents (spelling model, malformed-line pool) replayed in simple and massive mode under perturbed schedules and compared with the specification's per-root blocks; open findings reproduced with a forced schedule",
+   text="TLC exhausts the pipeline's interleavings for every sink (each root block comes out whole, exactly once, only if it did not fail; nil iff nothing failed) and the generator stage with its shared parser on documents in one notation (every interleaving yields the sequential generator's forest and verdict); documents of MC_C15 (every notation incl. # roots, leading blank lines, CRLF), MC_C02 (malformed lines at every position) and MC_C01 are then run through text, JSON, YAML, dry-run, walk, mkdir and verify in both modes with GOMAXPROCS 1..16, seeded delays at hook points and yielding reader/writer/callback: error iff simple mode (and iff the specification where it settles the case), massive output a permutation of the specification's per-root blocks with each block in one piece, same multiset of decoded roots, callback order preserved inside a root, same directory snapshot, same verdict.",
+   note="mkdir/verify are compared for forests with distinct root names only. Documents that mix notations (two open findings, KNOWN_FINDINGS) are reported as KNOWN-FINDING: the shared parser makes them schedule-dependent and the repair is not a small patch."),
 }
 
 NOT_YET = "check not built yet (framework under construction; see DESIGN.md section 7)"
